@@ -6,12 +6,12 @@ from .common import *
 from . import build as B, tlc as T, nmea, corpus, engine as E
 from . import families as F
 
-MARK = re.compile(rb"i:(\d{6})")
+MARK = re.compile(rb"i:(\d{7})")
 VARIANT = re.compile(rb"\tSome\((\w+)\(")
 
 
 def marker(i):
-    return b"i:%06d" % i
+    return b"i:%07d" % i
 
 
 def split_lines(data):
@@ -148,6 +148,7 @@ def gen_streams(tier):
         return nmea.line(tag=marker(i) + hi, payload=b"", fill=0)
 
     def assemble(lines, term=b"\n", final_newline=True):
+        ctr[0] = 0          # markers need to be unique within one stream only
         data = term.join(lines)
         if final_newline and lines:
             data += term
